@@ -136,6 +136,65 @@ def main(inp, outp):
             clause("IAU-1980 and IAU-2010 chains agree within 0.1 arcsec (+0.03 arcsec frame bias)", ang <= 0.13, "frames/iau-chains",
                    f"GCRF->EME2000 through both chains rotates by {ang:.4f} arcsec at {dspec} labelled {scale} [{job['eop']}]",
                    {"date": dspec, "scale": scale, "eop": job["eop"]})
+    # ---- histories: a conversion is a function of (frames, date, EOP in force) - not of what was converted before ------------------
+    if job.get("histories", True) and job["dates"]:
+        from beyond.dates.eop import EopDb, Eop, register
+
+        if "VerifConstEop" not in getattr(EopDb, "_dbs", {}):
+            @register("VerifConstEop")
+            class VerifConstEop:
+                """a second Earth-orientation source: constant, sizeable values"""
+                def __getitem__(self, mjd):
+                    # same TAI-UTC as the source it replaces (the same calendar date is then the same instant), other values differ
+                    return Eop(x=0.12, y=0.31, dx=0.2, dy=-0.1, deps=-8.0, dpsi=-60.0, lod=1.5, ut1_utc=-0.35, tai_utc=TAI_UTC[0])
+        TAI_UTC = [0.0]
+        pairs = [("ITRF", "EME2000"), ("TIRF", "CIRF"), ("ITRF", "TOD"), ("PEF", "MOD"), ("ITRF", "G50"), ("ITRF", "GCRF"), ("EME2000", "ITRF")]
+        x0 = np.array([6524834.0, 686297.0, 2650000.0, -4901.0, 5533.0, -1976.0])
+        prev_db = config.get("eop", "dbname", fallback=EopDb.DEFAULT_DBNAME)
+
+        def conv(pair, dspec):
+            return np.asarray(StateVector(x0, Date(*dspec), "cartesian", pair[0]).copy(frame=pair[1]), float)
+        for dspec in job["dates"][:2]:
+            other = list(dspec)
+            other[0] = other[0] - 1 if other[0] > 1975 else other[0] + 1
+            for pair in pairs:
+                data = {"pair": list(pair), "date": dspec, "eop": job["eop"],
+                        "how": "convert under the configured EOP source; config eop.dbname -> a constant source; convert the same pair at the same "
+                               "calendar date (A); convert it at another date; convert at the first date again (B); A must equal B"}
+                try:
+                    first = conv(pair, dspec)
+                    TAI_UTC[0] = float(Date(*dspec).eop.tai_utc)
+                    config.set("eop", "dbname", "VerifConstEop")
+                    a_ = conv(pair, dspec)              # same pair, equal date, another EOP source: nothing else in between
+                    conv(pair, other)
+                    b_ = conv(pair, dspec)
+                finally:
+                    config.set("eop", "dbname", prev_db)
+                back = conv(pair, other)
+                again = conv(pair, dspec)
+                res["evaluations"] += 1
+                clause("a conversion does not depend on what was converted before (same pair and date under another EOP source)",
+                       np.array_equal(a_, b_) and np.array_equal(first, again), "frames/history-eop",
+                       f"{pair} at {dspec}: after a conversion under the previous EOP source the result differs by {np.linalg.norm(a_[:3] - b_[:3]):.4g} m "
+                       f"from the same conversion made later (and {np.linalg.norm(first[:3] - again[:3]):.4g} m when switching back)", data)
+        # an orbit-attached frame registered again under the same name with another orbit
+        date = Date(*job["dates"][0])
+        o1 = Orbit([7.3e6, 0.03, 1.1, 0.4, 1.2, 2.1], date, "keplerian", "EME2000", "Kepler")
+        o2 = Orbit([8.1e6, 0.10, 0.4, 2.4, 0.2, 4.1], date, "keplerian", "EME2000", "Kepler")
+        for orientation in ("QSW", "TNW", None):
+            tag = orientation or "N"
+            f1 = fr.orbit2frame(f"VfSame{tag}", o1, orientation, exists_warning=False)
+            g1 = np.asarray(StateVector(x0, date, "cartesian", "EME2000").copy(frame=f1), float)
+            f2 = fr.orbit2frame(f"VfSame{tag}", o2, orientation, exists_warning=False)           # same name, another orbit
+            g2 = np.asarray(StateVector(x0, date, "cartesian", "EME2000").copy(frame=f2), float)
+            fresh = fr.orbit2frame(f"VfFresh{tag}", o2, orientation, exists_warning=False)
+            want = np.asarray(StateVector(x0, date, "cartesian", "EME2000").copy(frame=fresh), float)
+            back = np.asarray(StateVector(g2, date, "cartesian", f2).copy(frame="EME2000"), float)
+            res["evaluations"] += 1
+            clause("a frame registered again under an existing name is the new frame (conversions follow the new orbit; round trip holds)",
+                   np.linalg.norm(g2[:3] - want[:3]) <= 1e-6 and np.linalg.norm(g2[3:] - want[3:]) <= 1e-9 and np.linalg.norm(back[:3] - x0[:3]) <= 1e-5,
+                   "frames/history-reregistered", f"orientation {orientation}: {np.linalg.norm(g2[:3] - want[:3]):.4g} m from the conversion to the same "
+                   f"frame under a fresh name; round trip off by {np.linalg.norm(back[:3] - x0[:3]):.4g} m", {"orientation": orientation})
     res["nontrivial"] = [json.dumps(list(k)) for k in sorted(kinds)]
     with open(outp, "w") as fh:
         json.dump(res, fh)
